@@ -287,7 +287,8 @@ class timemodel(_coreiterative):
             if isave < nsave: # specific step to save result and go back to Qn
                 if self.Qn.time+mindtloc >= tsave[isave]:
                     # compute smaller step with same integrator
-                    self.step(Qnn, tsave[isave]-self.Qn.time)
+                    if tsave[isave] > self.Qn.time: # a save time equal to the current time is the current state
+                        self.step(Qnn, tsave[isave]-self.Qn.time)
                     Qnn.it = self._itstart + self._nit
                     results.append(Qnn)
                     if verbose:
